@@ -1,4 +1,5 @@
 import Woodpile.Driver.Util
+import Woodpile.Driver.IterScript
 import Woodpile.Model.RoughTlv
 import Woodpile.Model.RoughTlvApi
 import Woodpile.Gen.Consts
@@ -7,7 +8,8 @@ import Woodpile.Gen.Consts
 Model drivers for the families `tlv` (C11) and `tlvview` (C12).
 
 `tlvview`:  `I view <hex> <lookups>`  — `MessageView::new` on the bytes and then
-every accessor (see `viewObs`).
+every accessor (see `viewObs`);  `I viewit <iter|tags> <hex> <script>` — an iterator-protocol
+script (`Model/IterScript.lean`) on what `iter()` / `tags().iter()` yield.
 
 `tlv`:  `I msg <ctor> <vt> <items>` builds a `MessageWrapper` into the next slot
 (`ctor` ∈ new|sorted|slice; `vt` names the Rust value type and is only
@@ -15,6 +17,8 @@ validated here; items are `tag:kind:payload` with kind `b`/`o` = borrowed/owned
 bytes, `m` = the message in an earlier slot, `v` = a `MessageView` of that
 slot's encoding (a received message re-used as a value), `f` = a value whose
 `rough_tlv_len` reports the given number and which is never encoded);
+`I msgrun <ctor> <vt> <L> <defect>` is `msg` on a generated list (`runItems`: `L` pairs with empty
+values and ascending tags, one defect at a chosen position; the single-defect sweeps);
 `I enc <slot> <sink>` encodes the slot's message and views the result; it answers
 `calls <b|c><len>,…` (the `ZeroCopySink` calls `encode` makes, in order: method and
 length), for sink `hcobs` also `wire <hex>` (what the HCOBS `Encoder` sink holds after
@@ -79,11 +83,75 @@ def viewObsOrPanic (d : List UInt8) (lookups : List Nat) : List String :=
 
 /-! ### Family `tlvview` -/
 
+/-- FNV-1a, 64 bit, over the (ASCII) characters of a string; same as `fnv64` in the harness. -/
+def fnvStr (s : String) : UInt64 :=
+  s.foldl (fun h c => (h ^^^ c.toNat.toUInt64) * 0x100000001b3) 0xcbf29ce484222325
+
+def hex64 (x : UInt64) : String :=
+  String.ofList ((List.range 16).map (fun i => hexChar ((x >>> (UInt64.ofNat (60 - 4 * i))).toNat % 16)))
+
+def dedupAdj : List Nat → List Nat
+  | a :: b :: rest => if a = b then dedupAdj (b :: rest) else a :: dedupAdj (b :: rest)
+  | l => l
+
+/-- The terse observation of `viewt` (messages with hundreds of pairs): the `new` line, count +
+digest of the `tags` and `iter` texts of `viewObs`, `get`/`get_value` at a handful of indices,
+`find` of the lookups.  `none` = some call panics. -/
+def viewTerse (d : List UInt8) (lookups : List Nat) : Option (List String) := do
+  match ← View.new d with
+  | .error e => pure ["new err " ++ errStr e]
+  | .ok v =>
+    let n ← v.len
+    let empty ← v.isEmpty
+    let tags ← v.tags
+    let it ← v.iter
+    let idxs := dedupAdj [0, n / 2, n - 1, n, n + 1, 4294967296, 18446744073709551615]
+    let gets ← idxs.mapM (fun i => do
+      let g ← v.get i
+      let gv ← v.getValue i
+      pure (toString i ++ "=" ++ optPair g ++ "/" ++ optHex gv))
+    let finds ← lookups.mapM (fun w => do
+      let ft ← v.findTag w
+      let f ← v.find w
+      pure (toString w ++ "=" ++ (match ft with | none => "none" | some i => toString i) ++ "/" ++ optHex f))
+    pure [
+      "new ok n=" ++ toString n ++ " empty=" ++ b01 empty,
+      "tags #" ++ toString tags.length ++ ":" ++ hex64 (fnvStr (natList tags)),
+      "iter #" ++ toString it.length ++ ":" ++ hex64 (fnvStr (if it.isEmpty then "-" else ";".intercalate (it.map pairStr))),
+      "get " ++ " ".intercalate gets,
+      "find " ++ (if finds.isEmpty then "-" else " ".intercalate finds)]
+
+/-- `viewit <iter|tags> <hex> <script>`: an iterator-protocol script on the list `iter()` yields
+(forward only) or on the tags (a slice iterator: double-ended, exact size). -/
+def viewItObs (src : String) (d : List UInt8) (steps : List Woodpile.IterScript.Step) : List String :=
+  match View.new d with
+  | none => ["panic"]
+  | some (.error e) => ["new err " ++ errStr e]
+  | some (.ok v) =>
+    if src = "iter" then
+      match v.iter with
+      | none => ["panic"]
+      | some ps => [IterScriptText.scriptObs (ps.map pairStr) steps false]
+    else
+      match v.tags with
+      | none => ["panic"]
+      | some ts => [IterScriptText.scriptObs (ts.map toString) steps true]
+
 def viewStep (s : Unit) : List String → Unit × List String
+  | ["viewit", src, hex, script] =>
+    if src ≠ "iter" ∧ src ≠ "tags" then (s, ["bad-op"]) else
+    match parseHex hex, IterScriptText.parseScript script with
+    | some d, some steps => (s, viewItObs src d steps)
+    | _, _ => (s, ["bad-op"])
   | ["view", hex, lk] =>
     match parseHex hex, parseNatList lk with
     | some d, some lookups =>
       if lookups.all (· < 4294967296) then (s, viewObsOrPanic d lookups) else (s, ["bad-op"])
+    | _, _ => (s, ["bad-op"])
+  | ["viewt", hex, lk] =>
+    match parseHex hex, parseNatList lk with
+    | some d, some lookups =>
+      if lookups.all (· < 4294967296) then (s, (viewTerse d lookups).getD ["panic"]) else (s, ["bad-op"])
     | _, _ => (s, ["bad-op"])
   -- `Tag` conversions and ordering (track apigaps): `tag <u32> <u32>`
   | ["tag", a, b] =>
@@ -174,7 +242,63 @@ def callsStr (cs : List Piece) : String :=
 
 def prodParams : Woodpile.Hcobs.Params := ⟨Woodpile.Gen.maxInit, Woodpile.Gen.maxSub, Woodpile.Gen.radix⟩
 
+/-- The defect of a `msgrun` op (see `runItems`). -/
+inductive Defect where
+  | none
+  | descent (i : Nat)
+  | equal (i : Nat)
+  | fake (i : Nat) (len : Nat)
+
+def parseDefect (s : String) : Option Defect :=
+  if s = "-" then some .none
+  else
+    let rest := (s.drop 1).toString
+    if s.startsWith "d" then rest.toNat?.map .descent
+    else if s.startsWith "e" then rest.toNat?.map .equal
+    else if s.startsWith "f" then
+      match rest.splitOn ":" with
+      | [i, len] =>
+        match i.toNat?, len.toNat? with
+        | some i, some len => if len ≥ 18446744073709551616 then none else some (.fake i len)
+        | _, _ => none
+      | _ => none
+    else none
+
+/-- The list of `msgrun <ctor> <vt> <L> <defect>` (same as the harness' `msgrun_items`): `L` pairs with
+empty values handed over as `vt` hands over a borrowed value, tags `10 + 2j`, and one defect:
+the tags of pairs `i`, `i+1` swapped / pair `i+1` carrying the tag of pair `i` / pair `i` a
+value that only reports a length.  `none` = malformed. -/
+def runItems (vt : String) (l : Nat) (d : Defect) : Option (List (UInt32 × ItemSpec)) :=
+  let tag (j : Nat) : Nat :=
+    match d with
+    | .descent i => if j = i then 10 + 2 * (i + 1) else if j = i + 1 then 10 + 2 * i else 10 + 2 * j
+    | .equal i => if j = i + 1 then 10 + 2 * i else 10 + 2 * j
+    | _ => 10 + 2 * j
+  let item (j : Nat) : ItemSpec :=
+    match d with
+    | .fake i len => if j = i then .fake len else .bytes (methodOf vt "b") []
+    | _ => .bytes (methodOf vt "b") []
+  let ok : Bool :=
+    kindAllowed vt "b" && l ≤ 100000 &&
+    (match d with
+     | .none => true
+     | .descent i => i + 1 < l
+     | .equal i => i + 1 < l
+     | .fake i _ => i < l && vt == "h")
+  if ok then some ((List.range l).map (fun j => (UInt32.ofNat (tag j), item j))) else none
+
 def step (s : TlvSt) : List String → TlvSt × List String
+  | ["msgrun", ctor, vt, l, defect] =>
+    match parseCtor ctor, l.toNat?, parseDefect defect with
+    | some c, some l, some d =>
+      match runItems vt l d with
+      | none => (s, ["bad-op"])
+      | some its =>
+        match s.msg c its with
+        | none => (s, ["bad-op"])
+        | some (s', .ok w) => (s', ["ok " ++ toString w.tlvLen])
+        | some (s', .error e) => (s', ["err " ++ encErrStr e])
+    | _, _, _ => (s, ["bad-op"])
   | ["msg", ctor, vt, items] =>
     match parseCtor ctor, parseItems vt items with
     | some c, some its =>
